@@ -95,14 +95,16 @@ type tr struct {
 	funcs map[string]*ast.FuncDecl // key: "name" or "Recv.name"
 	want  map[string]bool
 	// per function state
-	names   map[types.Object]string
-	used    map[string]bool
-	fuelFns map[string]bool // functions that need fuel (contain a general for loop, directly or through calls)
-	mutates map[string][]int // function key -> indices of slice parameters written through
-	cur     string
-	labels  map[string]string // goto targets bound as local continuations (per function)
-	knum    int
-	errs    []string
+	names      map[types.Object]string
+	used       map[string]bool
+	fuelFns    map[string]bool  // functions that need fuel (contain a general for loop, directly or through calls)
+	mutates    map[string][]int // function key -> indices of slice parameters written through
+	cur        string
+	labels     map[string]string // goto targets bound as local continuations (per function)
+	recGroup   map[string]bool   // functions emitted inside a recursive Fixpoint group
+	gotoLabels map[string]bool   // labels that are targets of a goto in the current function
+	knum       int
+	errs       []string
 }
 
 type unsupported struct{ msg string }
